@@ -345,7 +345,8 @@ def random_edge(rng: random.Random, kind: str | None = None) -> tuple[list, str]
     raise RuntimeError("could not generate edge definition " + kind)
 
 
-def same_end(ast: list, rng: random.Random, top_forks_only: bool = False) -> list | None:
+def same_end(ast: list, rng: random.Random, top_forks_only: bool = False,
+             name: str = "SAME") -> list | None:
     """Beyond fragment F: give the last event of EVERY branch of one AND/OR fork the same new
     event type (an event type then follows/precedes with counts > 1 and the learner emits
     branch counts).  Used by C05 only, judged on well-formedness and names.  None when no
@@ -370,8 +371,10 @@ def same_end(ast: list, rng: random.Random, top_forks_only: bool = False) -> lis
     if not forks:
         return None
     f = rng.choice(forks)
+    if any(st == ("ev", name) for b in f[1] for st in b):
+        return None         # this fork already carries the repeated type
     for b in f[1]:
-        b[-1] = ("ev", "SAME")
+        b[-1] = ("ev", name)
     return ast
 
 
@@ -410,7 +413,9 @@ def random_counts_def(rng: random.Random) -> list:
         base = random_core(rng)
         t = same_start(base, rng) if rng.random() < 0.6 else same_end(base, rng)
         if t is not None and rng.random() < 0.4:
-            t = same_end(t, rng) or t
+            # a second fork gets its OWN repeated type: one type at two places of the
+            # definition is not a workflow the learner's event-type graph can represent
+            t = same_end(t, rng, name="SAME2") or t
         if t is not None:
             return t
     raise RuntimeError("could not generate a definition with counts")
@@ -511,6 +516,31 @@ def loop_end_nested_fork_family() -> list[list]:
                     br = [[nm(), ib] + ([nm()] if inner_tail else [])] + \
                         [[nm()] for _ in range(nb - 1)]
                     out.append(pre + [("loop", [nm(), (outer, br)]), nm()])
+    return out
+
+
+def two_break_xors_family() -> list[list]:
+    """Deterministic family inside fragment F: an outermost loop whose body holds TWO separate
+    break XORs (two decision points, each with plain single-event break branches), at top
+    level and inside a branch of an AND / OR / XOR fork - over the number of break branches
+    per XOR and whether the body goes on behind the second XOR."""
+    out = []
+    for ctx in ("top", "and", "or", "xor"):
+        for nb1, nb2 in ((1, 1), (2, 1), (1, 2)):
+            for tail in (False, True):
+                nm = _Names()
+                first = nm()
+                body: list = [nm()]
+                for nb in (nb1, nb2):
+                    body.append(("xor", [[nm(), ("break",)] for _ in range(nb)] + [[nm()]]))
+                    body.append(nm())
+                if not tail:
+                    body.pop()
+                loop = ("loop", body)
+                if ctx == "top":
+                    out.append([first, loop, nm()])
+                else:
+                    out.append([first, (ctx, [[nm(), loop, nm()], [nm()]]), nm()])
     return out
 
 
